@@ -10,8 +10,8 @@ Mk(p, k, st, ct, enc, hs, hd, ts, td, ce, b, cs) ==
    tstatus |-> ts, tdetails |-> td, cerr |-> ce, body |-> b, casing |-> cs]
 \* non-200 heads
 InitA == \E p \in {"connect", "grpc", "grpcweb"}, k \in {"unary", "server", "client", "bidi"}, st \in Statuses \ {200},
-            ct \in {"match", "other", "absent"}, ce \in CErr, b \in {"empty", "garbage", "good"} :
-           InitWith(Mk(p, k, st, ct, "none", "absent", "absent", "absent", "absent", ce, b, "canon"))
+            ct \in {"match", "other", "absent"}, ce \in CErr, b \in {"empty", "garbage", "good"}, enc \in {"none", "unknown"} :
+           InitWith(Mk(p, k, st, ct, enc, "absent", "absent", "absent", "absent", ce, b, "canon"))
 \* 200 with a gRPC status in the headers (trailers-only responses)
 InitB == \E p \in {"grpc", "grpcweb"}, k \in {"unary", "server", "client", "bidi"}, hs \in StClasses \ {"absent"}, hd \in DtClasses,
             ct \in {"match", "garbage"} :
